@@ -3,10 +3,11 @@ EXTENDS Exec
 MC_TabCols == [t1 |-> <<"g", "o", "x">>, t2 |-> <<"g", "y">>]
 MC_ColVals == [g |-> {NULL, 0, 1}, o |-> {0, 1, 2}, x |-> {NULL, 0, 1, 2}, y |-> {NULL, 1}]
 MC_Kind == [g |-> "s", h |-> "s", h2 |-> "s", src |-> "s",
-            p |-> "b", q |-> "b", o |-> "n", k |-> "n", x |-> "n", y |-> "n", z |-> "n", w |-> "n", x2 |-> "n", nosuch |-> "n"]
+            p |-> "b", q |-> "b", o |-> "n", k |-> "n", x |-> "n", y |-> "n", z |-> "n", w |-> "n", v |-> "n", x2 |-> "n", nosuch |-> "n"]
 MCB_TabCols == [t1 |-> <<"o", "x", "y">>]
 MCB_ColVals == [o |-> {0, 1}, x |-> {NULL, 1}, y |-> {NULL, 2}]
 MCD_ColVals == [o |-> {0, 1}, x |-> {1}, y |-> {NULL, 2}]
+MCW_ColVals == [o |-> {0, 1, 2}, x |-> {1, 2}, y |-> {NULL, 2}]
 MC1_TabCols == [t1 |-> <<"g", "o", "x">>]
 MCJ_TabCols == [t1 |-> <<"g", "x">>, t2 |-> <<"g", "x", "y">>]
 MCJ_ColVals == [g |-> {NULL, 0, 1}, x |-> {NULL, 1}, y |-> {NULL, 1}]
